@@ -114,6 +114,81 @@ class SymS(_Base):
 
             raise PathAbort("assumption")
 
+    def track_rounding(self, on):
+        """C04: let every substrate Decimal carry an upper bound on the rounding error of the real `prec`-digit arithmetic"""
+        self._vd.TRACK_ERR = bool(on)
+
+    def rounding_within(self, figure, scale, prop, kind, msg, exact=None):
+        """assert: the rounding-error bound carried by `figure` is at most 1e-15 x |scale| for every input on this path
+        (`scale` is the exact oracle value of the figure itself, which the caller has asserted equal to the figure).
+        A relative bound is a plain number; an absolute bound (after a cancellation) is a symbolic value and may need the
+        solver - a counterexample is then steered towards digit-rich inputs (every variable ending in ...654321), because
+        the bound assumes worst-case rounding and round numbers do not round at all."""
+        import z3  # pylint: disable=import-outside-toplevel
+
+        from .engine import Unsupported  # pylint: disable=import-outside-toplevel
+        from .poly import zvar  # pylint: disable=import-outside-toplevel
+
+        eb = getattr(figure, "eb", None)
+        if eb is None:
+            return
+        if eb is self._vd.INF:
+            raise Unsupported("rounding-error bound of a reported figure is unknown")
+        if eb[0] == "rel":
+            if eb[1] > Fraction(1, 10**15):
+                self.fail(prop, kind, msg + " (relative rounding bound %.3g)" % float(eb[1]))
+            return
+        self._vd._IN_EB[0] = True
+        try:
+            tol = self._vd.Decimal(("grid", self._poly(1), 15))
+            sc = scale if not scale._cmp0("<", self._vd.Decimal(0)) else -scale
+            excess = eb[1]._bin0(sc._bin0(tol, "*"), "-")
+            exceeded = excess._cmp0(">", self._vd.Decimal(0))
+        finally:
+            self._vd._IN_EB[0] = False
+        if exceeded:
+            m = self._digit_rich_model(excess)
+            if m is not None:
+                self.ctx.model = m
+            self.fail(prop, kind, msg)
+
+    def _digit_rich_model(self, excess):
+        """a model of the path condition under which the bound is exceeded and whose values have many significant digits
+        (extremes and digit-rich numbers are tried and checked by evaluation; the solver's own models are round numbers)"""
+        import random  # pylint: disable=import-outside-toplevel
+
+        import z3  # pylint: disable=import-outside-toplevel
+
+        from .poly import zvar  # pylint: disable=import-outside-toplevel
+
+        ctx = self.ctx
+        conj = z3.And(ctx.asserted) if ctx.asserted else z3.BoolVal(True)
+        rnd = random.Random(20260930)
+        digits = "98765432109876543210987654321098765"
+        opts = {}
+        for n in ctx.base_vars:
+            b = ctx.var_bound.get(n) or 10**6
+            nd = len(str(b))
+            cands = {1, 7, 654321, int(digits[: max(1, nd // 2)]), int(digits[: max(1, nd - 1)]), int(digits[: max(1, nd - 3)])}
+            opts[n] = sorted(c for c in cands if c <= b) or [1]
+        best, best_score = None, None
+        for _ in range(3000):
+            m = {n: rnd.choice(opts[n]) for n in ctx.base_vars}
+            try:
+                m = ctx._complete(dict(m))  # pylint: disable=protected-access
+                val = excess.eval(m)
+            except (ZeroDivisionError, KeyError):
+                continue
+            if val <= 0:
+                continue
+            subs = [(zvar(k), z3.IntVal(v)) for k, v in m.items()]
+            if not z3.is_true(z3.simplify(z3.substitute(conj, *subs))):
+                continue
+            score = sum(len(str(v).rstrip("0")) for v in m.values())
+            if best is None or score > best_score:
+                best, best_score = m, score
+        return best
+
     def assume_cmp(self, a, op, b):
         """a op b as a precondition on integers (no fork)"""
         self.ctx.assume_sign(self._poly(a) - self._poly(b), op)
@@ -199,6 +274,14 @@ class ConS(_Base):
     def assume(self, cond):
         if not cond:
             raise Abort("assumption")
+
+    def track_rounding(self, on):
+        pass
+
+    def rounding_within(self, figure, scale, prop, kind, msg, exact=None):
+        """real arithmetic: the figure itself must be within 1e-15 x |scale| of the exact value"""
+        if exact is not None and abs(Fraction(figure) - Fraction(exact)) > Fraction(1, 10**15) * abs(Fraction(scale)):
+            self.fail(prop, kind, msg)
 
     def assume_cmp(self, a, op, b):
         ok = {"<": a < b, "<=": a <= b, "==": a == b, "!=": a != b, ">": a > b, ">=": a >= b}[op]
